@@ -1,5 +1,6 @@
 SPECIFICATION GenSpec
 CONSTANTS NF = 3
           SharedTable = FALSE
+          LeakOnFault = FALSE
           KeepCmInputs = FALSE
 CHECK_DEADLOCK FALSE
